@@ -379,10 +379,68 @@ pub fn c04_histories(out: &str, thorough: bool, seed: u64) {
                 "state": {"run": desc, "state_json": j}}));
         }
     }
-    let res = json!({"optimised_states_checked": checked, "worst_residual": worst, "samples": samples,
+    let offered = offered_group_cells(seed, &mut failures, &mut worst);
+    let res = json!({"optimised_states_checked": checked, "offered_group_states_checked": offered, "worst_residual": worst, "samples": samples,
         "failures": failures.len(), "first_failures": failures.iter().take(10).collect::<Vec<_>>()});
     let mut fo = fs::File::create(out).expect("out");
     writeln!(fo, "{}", res).unwrap();
+}
+
+/// Every group the library offers by name (the seven, and any that is added later): after an
+/// optimisation each listed operation, expressed in Cartesian space with the state's own cell,
+/// is a rigid motion or reflection (C W C^-1 orthogonal, C = [A B]) - the cell is still in the
+/// crystal family of its group - for hard and LJ states.
+pub fn offered_group_cells(seed: u64, failures: &mut Vec<Value>, worst_out: &mut f64) -> usize {
+    use nalgebra::Matrix3;
+    use packing::{LJShape2, LineShape, PackedState, PotentialState};
+    let mut worst = *worst_out;
+    let mut offered = 0usize;
+    for name in packing::wallpaper::WallpaperGroups::variants().iter() {
+        let wg = match name.parse::<packing::wallpaper::WallpaperGroups>().ok().and_then(|g| packing::wallpaper::get_wallpaper_group(g).ok()) {
+            Some(g) => g,
+            None => continue,
+        };
+        for variant in 0..4u64 {
+            let mut b = packing::BuildOptimiser::default();
+            b.seed(seed * 10 + variant).steps(400).inner_steps(100).kt_start(0.2).kt_ratio(Some(0.3)).max_step_size(0.2);
+            let j = if variant % 2 == 0 {
+                PackedState::from_group(LineShape::polygon(3 + variant as usize).unwrap(), &wg).ok().and_then(|st| serde_json::to_value(&b.build().optimise_state(st)).ok())
+            } else {
+                PotentialState::from_group(LJShape2::from_trimer(0.637556, 120., 1.), &wg).ok().and_then(|st| serde_json::to_value(&b.build().optimise_state(st)).ok())
+            };
+            let j = match j {
+                Some(j) => j,
+                None => continue,
+            };
+            offered += 1;
+            let a = j["cell"]["length"].as_f64().unwrap_or(1.);
+            let bl = a * j["cell"]["ratio"].as_f64().unwrap_or(1.);
+            let t = j["cell"]["angle"].as_f64().unwrap_or(1.);
+            let c = nalgebra::Matrix2::new(a, bl * t.cos(), 0., bl * t.sin());
+            let cinv = match c.try_inverse() {
+                Some(m) => m,
+                None => continue,
+            };
+            let site: Option<packing::wallpaper::WyckoffSite> = serde_json::from_value(j["occupied_sites"][0]["wyckoff"].clone()).ok();
+            let mut worst_op: f64 = 0.;
+            if let Some(site) = site {
+                for op in site.symmetries.iter() {
+                    let m: Matrix3<f64> = (*op).into();
+                    let w = nalgebra::Matrix2::new(m[(0, 0)], m[(0, 1)], m[(1, 0)], m[(1, 1)]);
+                    let r = c * w * cinv;
+                    let d = r.transpose() * r - nalgebra::Matrix2::identity();
+                    worst_op = worst_op.max(d.iter().fold(0., |acc: f64, x| acc.max(x.abs())));
+                }
+            }
+            worst = worst.max(worst_op);
+            if !(worst_op <= 1e-9) {
+                failures.push(json!({"what": format!("after an optimisation an operation of {} is not a rigid motion of the cell (deviation {:.3e})", name, worst_op),
+                    "state": {"group": name, "kind": if variant % 2 == 0 { "hard" } else { "lj" }, "cell": j["cell"]}}));
+            }
+        }
+    }
+    *worst_out = worst;
+    offered
 }
 
 /// C08, last sentence: every supported group, combined with any shape of well-defined area,
@@ -463,7 +521,15 @@ pub fn initial_states(out: &str) {
             }
         }
     }
-    let res = json!({"initial_states_checked": checked, "failures": failures.len(),
+    // the cell never leaves the crystal family of its group, for every group offered by name
+    drop(judge);
+    let mut worst = 0.;
+    let mut cell_failures: Vec<Value> = vec![];
+    let offered = offered_group_cells(1, &mut cell_failures, &mut worst);
+    for f in cell_failures {
+        failures.push(json!({"what": f["what"], "state": {"state": f["state"].to_string()}}));
+    }
+    let res = json!({"initial_states_checked": checked, "offered_group_states_optimised": offered, "failures": failures.len(),
         "first_failures": failures.iter().take(10).collect::<Vec<_>>()});
     let mut fo = fs::File::create(out).expect("out");
     writeln!(fo, "{}", res).unwrap();
